@@ -209,6 +209,10 @@ class TornadoEventLoop(EventLoop):
         return wrapper
 
     def run(self) -> None:
+        if not self._idle_asyncio_handle:
+            # like the other event loops: every run() begins with an idle pass, so that a callback whose exception
+            # ended the previous run() (its idle pass was cancelled) is followed by the idle callbacks before the loop sleeps
+            self._idle_asyncio_handle = self._loop.call_later(0, self.handle_exit(self._entering_idle))
         self._loop.start()
         if self._exc:
             exc, self._exc = self._exc, None
